@@ -63,6 +63,116 @@ type FuncExec struct {
 	nonNil    map[int]bool
 	allocs    []allocRec
 	usesSpec  bool
+	loopAutos map[*ssa.BasicBlock][]autoInv
+}
+
+// autoInv is an inferred, checked loop invariant about one integer cell.
+type autoInv struct {
+	label string
+	eval  func(st *State) *Term
+}
+
+// autoInvariants infers bounds for counters: a cell changed in the loop only by
+// adding a positive (negative) constant never drops below (rises above) its
+// value at loop entry; a range loop's hidden index stays below the length.
+func (fx *FuncExec) autoInvariants(fn *ssa.Function, l *Loop, entry *State, wc map[*ssa.Alloc]bool) []autoInv {
+	ts := fx.ts
+	var out []autoInv
+	for a := range wc {
+		a := a
+		if !fx.isCell(a) {
+			continue
+		}
+		if _, ok := intTyOf(a.Type().(*types.Pointer).Elem()); !ok {
+			continue
+		}
+		ev, ok := entry.cells[a].(VInt)
+		if !ok {
+			continue
+		}
+		dir := 0
+		okPattern := true
+		refs := a.Referrers()
+		if refs == nil {
+			continue
+		}
+		for _, r := range *refs {
+			s, isStore := r.(*ssa.Store)
+			if !isStore || !l.body[s.Block()] {
+				continue
+			}
+			b, isBin := s.Val.(*ssa.BinOp)
+			if !isBin || (b.Op != token.ADD && b.Op != token.SUB) {
+				okPattern = false
+				break
+			}
+			ld, isLoad := b.X.(*ssa.UnOp)
+			c, isConst := b.Y.(*ssa.Const)
+			if !isLoad || ld.Op != token.MUL || ld.X != ssa.Value(a) || !isConst || c.Value == nil {
+				okPattern = false
+				break
+			}
+			v := c.Int64()
+			if b.Op == token.SUB {
+				v = -v
+			}
+			d := 1
+			if v < 0 {
+				d = -1
+			} else if v == 0 {
+				d = 0
+			}
+			if dir != 0 && d != 0 && d != dir {
+				okPattern = false
+				break
+			}
+			if d != 0 {
+				dir = d
+			}
+		}
+		if !okPattern || dir == 0 {
+			continue
+		}
+		e0 := ev.t
+		name := a.Comment
+		if dir > 0 {
+			out = append(out, autoInv{"lower:" + name, func(st *State) *Term {
+				if v, ok := st.cells[a].(VInt); ok {
+					return ts.Le(e0, v.t)
+				}
+				return ts.True()
+			}})
+		} else {
+			out = append(out, autoInv{"upper:" + name, func(st *State) *Term {
+				if v, ok := st.cells[a].(VInt); ok {
+					return ts.Le(v.t, e0)
+				}
+				return ts.True()
+			}})
+		}
+		if a.Comment == "rangeindex" {
+			// head: t = *r + 1; *r = t; if t < bound
+			var bound ssa.Value
+			for _, in := range l.head.Instrs {
+				if b, ok := in.(*ssa.BinOp); ok && b.Op == token.LSS {
+					bound = b.Y
+				}
+			}
+			if bound != nil {
+				if bv, ok := entry.vals[bound].(VInt); ok {
+					bt := bv.t
+					out = append(out, autoInv{"range:" + name, func(st *State) *Term {
+						if v, ok := st.cells[a].(VInt); ok {
+							return ts.Or(ts.Lt(v.t, bt), ts.Eq(v.t, ts.Int(-1)))
+						}
+						return ts.True()
+					}})
+				}
+			}
+		}
+	}
+	sort.Slice(out, func(i, j int) bool { return out[i].label < out[j].label })
+	return out
 }
 
 type inputVar struct {
@@ -137,6 +247,10 @@ func (fx *FuncExec) addObl(kind, label, src string, reach, goal *Term) *Obligati
 	if g.isTrue() {
 		o.Status = "proved"
 		o.Solver = "simplifier"
+	}
+	if kind == "shape" {
+		o.Status = "refuted"
+		o.Solver = "contract"
 	}
 	fx.obls = append(fx.obls, o)
 	return o
@@ -541,7 +655,7 @@ func (fx *FuncExec) enterLoop(fn *ssa.Function, l *Loop, reach *Term, st *State,
 	}
 	// 1. invariant holds on entry
 	for _, c := range invs {
-		t, err := fx.evalClause(c, &cenv{fx: fx, fn: fn, st: st, old: fx.entryFor(fn), con: con})
+		t, err := fx.evalClause(c, &cenv{fx: fx, fn: fn, st: st, old: fx.entryFor(fn), con: con, body: true, binds: map[string]Value{}})
 		if err != nil {
 			fx.addObl("shape", "inv:"+c.Label, err.Error(), reach, ts.False())
 			continue
@@ -550,6 +664,7 @@ func (fx *FuncExec) enterLoop(fn *ssa.Function, l *Loop, reach *Term, st *State,
 	}
 	// 2. discover the write set by running the body from the entry state
 	wc, wh := fx.discoverWrites(fn, l, st, con)
+	autos := fx.autoInvariants(fn, l, st, wc)
 	// 3. havoc
 	h := st.Clone()
 	h.wcells, h.wheap = map[*ssa.Alloc]bool{}, map[string]bool{}
@@ -588,8 +703,12 @@ func (fx *FuncExec) enterLoop(fn *ssa.Function, l *Loop, reach *Term, st *State,
 		}
 	}
 	// 4. assume invariant
+	for _, a := range autos {
+		fx.addFact(hreach, a.eval(h))
+	}
+	fx.loopAutos[l.head] = autos
 	for _, c := range invs {
-		t, err := fx.evalClause(c, &cenv{fx: fx, fn: fn, st: h, old: fx.entryFor(fn), con: con})
+		t, err := fx.evalClause(c, &cenv{fx: fx, fn: fn, st: h, old: fx.entryFor(fn), con: con, body: true, binds: map[string]Value{}})
 		if err == nil {
 			fx.addFact(hreach, t)
 		}
@@ -718,11 +837,14 @@ func (fx *FuncExec) runLoopBodyOnce(fn *ssa.Function, l *Loop, st *State, con *C
 }
 
 func (fx *FuncExec) backEdge(fn *ssa.Function, l *Loop, n *node, cond *Term, st *State, con *Contract) {
+	for _, a := range fx.loopAutos[l.head] {
+		fx.addObl("inv-preserve", fmt.Sprintf("loop%d:auto:%s", l.ordinal, a.label), "inferred counter bound", cond, a.eval(st))
+	}
 	if l.spec == nil {
 		return
 	}
 	for _, c := range l.spec.Invariants {
-		t, err := fx.evalClause(c, &cenv{fx: fx, fn: fn, st: st, old: fx.entryFor(fn), con: con})
+		t, err := fx.evalClause(c, &cenv{fx: fx, fn: fn, st: st, old: fx.entryFor(fn), con: con, body: true, binds: map[string]Value{}})
 		if err != nil {
 			fx.addObl("shape", "inv:"+c.Label, err.Error(), cond, fx.ts.False())
 			continue
@@ -740,8 +862,8 @@ func (fx *FuncExec) backEdge(fn *ssa.Function, l *Loop, n *node, cond *Term, st 
 		if hi == nil {
 			return
 		}
-		m0, err0 := fx.evalInt(*d, &cenv{fx: fx, fn: fn, st: hi.state, old: fx.entryFor(fn), con: con})
-		m1, err1 := fx.evalInt(*d, &cenv{fx: fx, fn: fn, st: st, old: fx.entryFor(fn), con: con})
+		m0, err0 := fx.evalInt(*d, &cenv{fx: fx, fn: fn, st: hi.state, old: fx.entryFor(fn), con: con, body: true, binds: map[string]Value{}})
+		m1, err1 := fx.evalInt(*d, &cenv{fx: fx, fn: fn, st: st, old: fx.entryFor(fn), con: con, body: true, binds: map[string]Value{}})
 		if err0 != nil || err1 != nil {
 			fx.addObl("shape", "dec", fmt.Sprint(err0, err1), cond, fx.ts.False())
 			return
